@@ -434,11 +434,30 @@ class P2SHScriptPubKey(ScriptPubKey):
         return encode_base58_checksum(prefix + self.hash160())
 
 
+def is_basic_multisig(script):
+    """Returns whether the script is exactly
+    OP_m <pubkey 1> ... <pubkey n> OP_n OP_CHECKMULTISIG with 1 <= m <= n <= 16"""
+    commands = script.commands
+    # non-canonical pushes are not the template any wallet derives
+    if script.raw or len(commands) < 4 or commands[-1] != 174:
+        return False
+    op_m, op_n, pubkeys = commands[0], commands[-2], commands[1:-2]
+    # OP_1 (0x51) ... OP_16 (0x60)
+    for op in (op_m, op_n):
+        if not isinstance(op, int) or op < 0x51 or op > 0x60:
+            return False
+    # everything between OP_m and OP_n has to be a public key, exactly n of them
+    for pubkey in pubkeys:
+        if not isinstance(pubkey, bytes) or len(pubkey) not in (33, 65):
+            return False
+    return op_m <= op_n and op_n - 0x50 == len(pubkeys)
+
+
 class RedeemScript(Script):
     """Subclass that represents a RedeemScript for p2sh"""
 
     def is_p2sh_multisig(self):
-        return self.commands[-1] == 174
+        return is_basic_multisig(self)
 
     def hash160(self):
         """Returns the hash160 of the serialization of the RedeemScript"""
@@ -607,11 +626,7 @@ class WitnessScript(Script):
         return redeem_script.address(network)
 
     def is_p2wsh_multisig(self):
-        return (
-            OP_CODE_NAMES[self.commands[-1]] == "OP_CHECKMULTISIG"
-            and isinstance(self.commands[0], int)
-            and isinstance(self.commands[-2], int)
-        )
+        return is_basic_multisig(self)
 
     def get_quorum(self):
         """
